@@ -259,6 +259,9 @@ func (r *Runner) ApplyOne(ctx context.Context, tarballPath string, opts ApplyOpt
 		if err != nil {
 			return nil, err
 		}
+		if err := saveCurrentManifest(r.StateRoot, snapDir); err != nil {
+			return nil, fmt.Errorf("snapshot current-manifest: %w", err)
+		}
 		if err := journal.SetPhase("snapshot_done"); err != nil {
 			return nil, err
 		}
@@ -447,6 +450,14 @@ func (r *Runner) Rollback(ctx context.Context) (*RollbackResult, error) {
 	if err != nil {
 		_ = journal.SetPhase("rollback_failed")
 		return nil, err
+	}
+
+	// The artifacts are N-1 again; make version discovery agree with
+	// them, otherwise the next apply checks predecessors against the
+	// version that was just rolled back.
+	if err := restoreCurrentManifest(snapDir, r.StateRoot); err != nil {
+		_ = journal.SetPhase("rollback_failed")
+		return nil, fmt.Errorf("rollback: restore current-manifest: %w", err)
 	}
 
 	_ = restored
